@@ -23,6 +23,7 @@ import (
 	"os"
 	"path/filepath"
 	"runtime/debug"
+	"runtime/metrics"
 	"sort"
 	"strconv"
 	"strings"
@@ -418,5 +419,26 @@ func ShardRange(n int64) (lo, hi int64) {
 	s, k := int64(Shards()), int64(Shard())
 	lo = n * k / s
 	hi = n * (k + 1) / s
+	return
+}
+
+var allocSample = []metrics.Sample{{Name: "/gc/heap/allocs:bytes"}}
+
+func heapAllocs() uint64 {
+	metrics.Read(allocSample)
+	return allocSample[0].Value.Uint64()
+}
+
+// Measure runs f under the watchdog and returns the bytes allocated by the process while
+// it ran (cumulative heap allocation counter; large allocations are accounted immediately,
+// small ones when the allocating thread's cache is flushed, so the value can only
+// under-estimate) and the panic/time-out description.
+func Measure(d time.Duration, f func()) (alloc uint64, failed string) {
+	before := heapAllocs()
+	failed = TryTimeout(d, f)
+	after := heapAllocs()
+	if after > before {
+		alloc = after - before
+	}
 	return
 }
